@@ -36,6 +36,7 @@ var (
 	flagBudget = flag.Duration("sim.budget", 0, "wall clock budget for this worker (0 = none)")
 	flagMin    = flag.Bool("sim.min", true, "minimise violations")
 	flagSUTLog = flag.Bool("sim.sutlog", false, "print SUT log messages")
+	flagDump   = flag.Bool("sim.dump", false, "include the scenario in every result")
 )
 
 type RunResult struct {
@@ -185,6 +186,11 @@ func (l *simLogger) note(level string, params []interface{}) {
 		}
 		return
 	}
+	if strings.Contains(msg, "Stage recovery complete") && len(params) > 0 {
+		if src, ok := params[0].(string); ok && l.s.recv != nil {
+			l.s.recv.recovering.Store(strings.Trim(src, "()"), false)
+		}
+	}
 	for _, p := range probePrefixes {
 		if strings.Contains(msg, p) {
 			l.s.stat("log:" + p)
@@ -216,6 +222,8 @@ func (s *Sim) run() {
 	switch s.sc.Mode {
 	case "w1":
 		s.runW1()
+	case "w2":
+		s.runW2()
 	default:
 		if f, ok := modes[s.sc.Mode]; ok {
 			f(s)
@@ -224,6 +232,14 @@ func (s *Sim) run() {
 		}
 	}
 	s.fakeElapsed = time.Since(s.epoch)
+	s.mu.Lock()
+	for k, v := range s.crashLabels {
+		s.stats["cp:"+k] = v
+	}
+	for _, n := range s.sendAll {
+		s.stats[fmt.Sprintf("actions:s%d", n.inc)] = n.actions
+	}
+	s.mu.Unlock()
 	s.shutdownAll()
 	synctest.Wait()
 	s.killDeadGates()
@@ -251,7 +267,8 @@ func TestSim(t *testing.T) {
 	var shard, nshard int
 	fmt.Sscanf(*flagShard, "%d/%d", &shard, &nshard)
 	gen := generators[*flagProp]
-	if gen == nil {
+	enum := enumerators[*flagProp]
+	if gen == nil && enum == nil {
 		fmt.Fprintf(os.Stderr, "no generator for %s\n", *flagProp)
 		os.Exit(2)
 	}
@@ -287,7 +304,29 @@ func TestSim(t *testing.T) {
 			break
 		}
 		seed := runSeed(*flagSeed, *flagProp, idx)
-		for si, sc := range gen(seed, *flagTier) {
+		var list []*Scenario
+		if enum != nil {
+			list = enum(seed, *flagTier, func(base *Scenario) *RunResult {
+				r := execRun(t, base, nil, -1, false)
+				r.Index = idx
+				r.Sub = "base"
+				if len(r.Viol) > 0 {
+					nViol++
+					if nViol <= 3 {
+						finishViolation(t, base, r)
+					}
+				}
+				r.Scenario = nil
+				if len(r.Viol) == 0 {
+					r.Tape = nil
+				}
+				emit(r)
+				return r
+			})
+		} else {
+			list = gen(seed, *flagTier)
+		}
+		for si, sc := range list {
 			if !deadline.IsZero() && time.Now().After(deadline) && si > 0 {
 				break
 			}
@@ -312,7 +351,7 @@ func TestSim(t *testing.T) {
 					res.Sig = sig(res.Viol[0])
 				}
 			}
-			if idx < 2 && si == 0 {
+			if (idx < 2 && si == 0) || *flagDump {
 				res.Scenario = sc // sample
 			}
 			if len(res.Viol) == 0 {
